@@ -5,6 +5,9 @@ behaviour. Prints one line per seam the checks should vary:
                    within 25 lines after the read, and every option-like lower-case word literal of the same file)
   NODEBUG          the sources contain debug_assert!/cfg(debug_assertions) sites other than the allow-listed pure ones
                    (reference/debug_assert_allow.txt): behaviour may differ in a build without debug assertions
+  STDERR           the library sources (rspirv/, spirv/; not the tool, not tests) write to standard error (eprint!, eprintln!,
+                   dbg!, io::stderr): such a write PANICS when the stream cannot be written (ENOSPC on a full disk, EPIPE
+                   on a reader-less pipe), so the check is run again with standard error redirected to /dev/full
 On the tree as it stands it prints nothing."""
 import re, os, sys
 ROOT = '/repo'
@@ -70,7 +73,23 @@ for top in ('rspirv', 'spirv', 'dis'):
                 for v in ['1'] + words[:20]:
                     if (name, v) not in env:
                         env.append((name, v))
+stderr_seam = False
+for top in ('rspirv', 'spirv'):
+    for d, dirs, files in os.walk(os.path.join(ROOT, top)):
+        dirs[:] = [x for x in dirs if x not in ('target', 'tests', 'examples', 'benches', '.git')]
+        for f in files:
+            if not f.endswith('.rs') or f == 'build.rs':
+                continue
+            try:
+                text = open(os.path.join(d, f), encoding='utf-8', errors='replace').read()
+            except OSError:
+                continue
+            code = '\n'.join('' if l.lstrip().startswith('//') else l.split('//')[0] for l in text.split('\n'))
+            if re.search(r'\beprintln?!|\bdbg!|\bstderr\s*\(', code):
+                stderr_seam = True
 for n, v in env:
     print('ENV %s=%s' % (n, v))
+if stderr_seam:
+    print('STDERR')
 if nodebug:
     print('NODEBUG')
